@@ -15,6 +15,7 @@ import (
 // ---------------------------------------------------------------------------
 
 type Clause struct {
+	Prop string // optional @Cxx tag: the obligation belongs to that property only
 	Expr ast.Expr
 	Src  string
 	Top  bool
@@ -86,6 +87,7 @@ type Contract struct {
 	ReplayImports []string
 	ReplayGo      []string // hand-written reproductions (test bodies) tried when an obligation of this function fails
 	ghostRel      int
+	NoInline      bool // abstract mode: static callees are never inlined (all ghost-relevant calls are direct)
 	AbstractToo   bool
 	Pure          bool                // trusted-pure: parameter names are not bound
 	Witnesses     []map[string]string // replay seeds: param -> Go literal (string or int)
@@ -287,7 +289,7 @@ var clauseKeywords = map[string]bool{
 	"lemma": true, "requires": true, "ensures": true, "top-ensures": true, "modifies": true, "allocates": true,
 	"panics": true, "abstract": true, "nosafety": true, "loop": true, "invariant": true, "top-invariant": true,
 	"decreases": true, "assert": true, "alias": true, "props": true, "recvnonnil": true, "ghostset": true,
-	"end": true, "opaque": true, "witness": true, "trusted-pure": true, "crlf-discipline": true, "crlf-exempt": true, "replay-go": true, "appends-raw": true, "fresh-override": true, "fresh-except": true, "macro": true, "ghostset-at-entry": true, "abstract-too": true, "replay-import": true,
+	"end": true, "opaque": true, "witness": true, "trusted-pure": true, "crlf-discipline": true, "crlf-exempt": true, "replay-go": true, "appends-raw": true, "fresh-override": true, "fresh-except": true, "macro": true, "ghostset-at-entry": true, "abstract-too": true, "replay-import": true, "noinline": true,
 }
 
 // parseContractFile reads the //@ lines of one file.
@@ -332,11 +334,17 @@ func (w *World) parseContractFile(pkg *types.Package, f *ast.File, fset *token.F
 }
 
 func (p *contractParser) clause(src string, no int, top bool) (Clause, error) {
+	prop := ""
+	if strings.HasPrefix(src, "@") {
+		if i := strings.IndexAny(src, " \t"); i > 0 {
+			prop, src = src[1:i], strings.TrimSpace(src[i+1:])
+		}
+	}
 	e, err := parseSpecExpr(src)
 	if err != nil {
 		return Clause{}, err
 	}
-	return Clause{Expr: e, Src: src, Top: top, File: p.file, Line: no}, nil
+	return Clause{Prop: prop, Expr: e, Src: src, Top: top, File: p.file, Line: no}, nil
 }
 
 func (p *contractParser) line(t string, no int) error {
@@ -485,6 +493,8 @@ func (p *contractParser) line(t string, no int) error {
 			c.FreshExcept = map[string]string{}
 		}
 		c.FreshExcept[strings.TrimSpace(rest[:i])] = strings.TrimSpace(rest[i+2:])
+	case "noinline":
+		c.NoInline = true
 	case "abstract-too":
 		c.AbstractToo = true // applied at call sites even in abstract-mode functions
 	case "appends-raw":
@@ -541,7 +551,13 @@ func (p *contractParser) line(t string, no int) error {
 		}
 		p.loop.Decreases = e
 	case "assert":
-		// assert before|after CALLEE[#n]: expr
+		// assert [@Cxx] before|after CALLEE[#n]: expr
+		tag := ""
+		if strings.HasPrefix(rest, "@") {
+			if k := strings.IndexAny(rest, " \t"); k > 0 {
+				tag, rest = rest[1:k], strings.TrimSpace(rest[k+1:])
+			}
+		}
 		i := strings.Index(rest, ":")
 		if i < 0 {
 			return fmt.Errorf("assert needs 'before CALLEE[#n]: expr'")
@@ -563,6 +579,9 @@ func (p *contractParser) line(t string, no int) error {
 			return err
 		}
 		cl.Top = true
+		if tag != "" {
+			cl.Prop = tag
+		}
 		c.Asserts = append(c.Asserts, CallAssert{Callee: callee, Ordinal: ord, Clause: cl, After: hd[0] == "after"})
 	case "ghostset-at-entry":
 		as := strings.SplitN(rest, "=", 2)
